@@ -272,3 +272,86 @@ func HIncludeDirs() {
 }
 
 func init() { vRegister("HIncludeDirs", HIncludeDirs) }
+
+// HIncludeCycle (C14): cycles through ANY file of the project, the root file included,
+// with directives written before the INCLUDE. Files r (the root, starting with JSIGHT),
+// a, b; each holds an optional prelude and "INCLUDE <target>" with a symbolic target in
+// {r, a, b} or is a leaf (a, b only). Following the chain from the root either ends in
+// a leaf (accepted) or returns to a file already on the chain: a recursion error.
+// open=1: the prelude of file a opens an explicit context that is still open at its INCLUDE.
+func HIncludeCycle() {
+	open := vParam("open", 0)
+	pickT := func(id string, leaf bool) byte {
+		t := vByte(id)
+		vAssume(t == 'r' || t == 'a' || t == 'b' || (leaf && t == '-'))
+		return t
+	}
+	target := map[byte]byte{'r': pickT("tr", false), 'a': pickT("ta", true), 'b': pickT("tb", true)}
+	prelude := map[byte]string{}
+	for _, f := range []byte{'r', 'a', 'b'} {
+		if vBool("p" + string(f)) {
+			prelude[f] = "TAG @" + string(f) + "\n"
+		}
+	}
+	if open == 1 {
+		prelude['a'] = "GET /a\n(\n"
+	}
+	vDir(vPath("/vfs/p"))
+	content := func(f byte) []byte {
+		var out []byte
+		if f == 'r' {
+			out = append(out, "JSIGHT 0.3\n"...)
+		}
+		out = append(out, prelude[f]...)
+		if target[f] == '-' {
+			out = append(out, "TAG @leaf"...)
+			out = append(out, f, '\n')
+		} else {
+			out = append(out, "INCLUDE "...)
+			out = append(out, target[f], '\n')
+		}
+		if open == 1 && f == 'a' {
+			out = append(out, ")\n"...)
+		}
+		return out
+	}
+	vFile(vPath("/vfs/p/a"), content('a'))
+	vFile(vPath("/vfs/p/b"), content('b'))
+	vFile(vPath("/vfs/p/r"), content('r')) // the root file is a file of the project like any other
+	c := NewJApiCore(fs.NewFile(vPath("/vfs/p/r"), content('r')))
+	je := c.scanProject()
+
+	onChain := map[byte]bool{'r': true}
+	cyclic := false
+	for f := target['r']; ; f = target[f] {
+		if f == '-' {
+			break
+		}
+		if onChain[f] {
+			cyclic = true
+			break
+		}
+		onChain[f] = true
+	}
+	if !cyclic {
+		if open == 0 {
+			vAssert(je == nil, "c14-acyclic-include-chain-rejected")
+		}
+		vReach("chain-accepted")
+		vObserve("ok")
+		return
+	}
+	vAssert(je != nil, "c14-include-cycle-accepted")
+	vAssert(strings.Contains(je.Msg, jerr.RecursionIsProhibited), "c14-cycle-not-reported-as-recursion")
+	on := false
+	for f := range onChain {
+		if strings.HasSuffix(je.File.Name(), "/"+string(f)) {
+			on = true
+		}
+	}
+	vAssert(on, "c14-recursion-error-outside-the-cycle")
+	vReach("chain-cycle")
+	vObserve("cycle", je.File.Name(), int(je.Index))
+}
+
+func init() { vRegister("HIncludeCycle", HIncludeCycle) }
